@@ -69,7 +69,9 @@ def show(e):
     if t == "of": return "%s of %s" % (quant(e), sset(e)), P_ATOM
     if t == "ofin": return "%s of %s in (%s..%s)" % (quant(e), sset(e), show(e["lo"])[0], show(e["hi"])[0]), P_ATOM
     if t == "ofat": return "%s of %s at %s" % (quant(e), sset(e), atomic(e["x"])), P_ATOM
-    if t == "ofrules": return "%s of (%s)" % (quant(e), ", ".join(e["set"])), P_ATOM
+    if t == "ofrules":
+        if e.get("wild"): return "%s of (%s*)" % (quant(e), e["wild"]), P_ATOM
+        return "%s of (%s)" % (quant(e), ", ".join(e["set"])), P_ATOM
     if t == "forof": return "for %s of %s : ( %s )" % (quant(e), sset(e), show(e["body"])[0]), P_ATOM
     if t == "forin":
         it = "(%s..%s)" % (show(e["lo"])[0], show(e["hi"])[0]) if e["it"] == "range" else "(" + ", ".join(show(v)[0] for v in e["vals"]) + ")"
@@ -253,7 +255,11 @@ class Gen:
             if e["t"] == "ofat": e["x"] = self.int_expr(1)
             return self.quant(e, len(e["set"]))
         if c < 0.83:
-            e = {"t": "ofrules", "set": r.sample(["r_true", "r_false", "r_true2"], r.randint(1, 3))}
+            if r.random() < 0.5:
+                w = r.choice(["r_", "r_t", "r_true", "r_f"])       # wildcard rule set: the rules of THIS namespace with that prefix
+                e = {"t": "ofrules", "wild": w, "set": [n for n in ["r_true", "r_false", "r_true2"] if n.startswith(w)]}
+            else:
+                e = {"t": "ofrules", "set": r.sample(["r_true", "r_false", "r_true2"], r.randint(1, 3))}
             q = self.quant(e, len(e["set"]))
             if q["q"] == "pct": q["q"] = "any"; q.pop("qv", None)
             return q
@@ -299,7 +305,7 @@ def strip_for_tla(e):
         return [strip_for_tla(x) for x in e]
     if not isinstance(e, dict):
         return e
-    d = {k: strip_for_tla(v) for k, v in e.items() if k != "them"}
+    d = {k: strip_for_tla(v) for k, v in e.items() if k not in ("them", "wild")}
     if d.get("t") in ("undef_i", "undef_f"):
         return {"t": "ext", "name": "__undef"}
     return d
